@@ -20,7 +20,7 @@ import t3gen as T     # noqa: E402
 
 TIERS = {
     'quick': {'crates': 6, 'per_crate': 14, 'walks': 4, 'abandon_cap': 14, 'assign_per_combo': 1},
-    'thorough': {'crates': 16, 'per_crate': 40, 'walks': 10, 'abandon_cap': 60, 'assign_per_combo': 4},
+    'thorough': {'crates': 16, 'per_crate': 56, 'walks': 12, 'abandon_cap': 60, 'assign_per_combo': 4},
 }
 
 # ---------------------------------------------------------------------------------------
